@@ -35,6 +35,7 @@ pub fn dispatch(id: &str, tier: Tier, seed: u64, rest: &[String]) -> i32 {
         "C08" => c08::main(tier, seed, rest),
         "C09" => c09::main(tier, seed),
         "C12" => c12::main(tier, seed),
+        "skeldbg" => c12::skel_debug(seed),
         "C20" => c20::main(tier, seed),
         "C19" => c19::main(tier, seed),
         "C13" => c13::main(tier, seed),
